@@ -306,6 +306,38 @@ func compareCodec(c *Ctx, id, name string, enc, dec *ssa.Function, slot int64, f
 		}
 	}
 	R.Check(same, id, key+"encode/decode sequences agree", P.Pos(dec.Pos()), fmt.Sprintf("%s and %s perform the same (kind, field) sequence", FuncName(enc), FuncName(dec)), "sequences: "+strings.Join(es2, " "), "encoder "+strings.Join(es2, " ")+" vs decoder "+strings.Join(ds2, " "))
+	// the encoder writes the fields as they are: a value transformed on its way to the disk (a time "normalised",
+	// a count clamped) comes back different from what the cached object holds - the running server and a
+	// restarted one disagree for exactly the values the transformation changes
+	{
+		okPlain, nPut, bad := true, 0, ""
+		for _, o := range eo {
+			if !o.Put || o.Src == nil {
+				continue
+			}
+			nPut++
+			v := stripConv(o.Src)
+			plain := false
+			switch x := v.(type) {
+			case *ssa.Const, *ssa.Parameter, *ssa.Field:
+				plain = true
+			case *ssa.UnOp:
+				plain = x.Op == token.MUL
+			case *ssa.Slice:
+				plain = true
+			case *ssa.Call:
+				if bi, isB := x.Call.Value.(*ssa.Builtin); isB && bi.Name() == "len" {
+					plain = true
+				}
+			}
+			if !plain {
+				okPlain, bad = false, o.Field+" written as "+sym(&symCtx{}, o.Src, Subst{}, 0)
+			}
+		}
+		if nPut > 0 {
+			R.Check(okPlain, id, key+"encoder writes the fields as they are", P.Pos(enc.Pos()), "every value the encoder writes is a field (or a length, a constant, a parameter) after conversions, not the result of arithmetic", fmt.Sprintf("%d values written", nPut), bad+": the decoder returns another value than the one encoded - cache and disk disagree for the values the arithmetic changes")
+		}
+	}
 	// no early answer: once the decoder has started to read, every return follows all of its reading operations - a
 	// return in between hands back an object made up from part of the bytes (a slot "recognised" as free from its
 	// length word alone), which the encoder's side of the sequence never produces
